@@ -637,8 +637,16 @@ def explore_invalid(ctx, texts, workdir):
                 fh.write(data if isinstance(data, bytes) else data.encode("utf8"))
         target = rng.choice(TARGETS)
         genv = t.get("gen") or option_subset(rng, target, "verifharness/lab/gen/none/")
-        jobs.append({"i": i, "kind": t["kind"], "gen": genv, "cwd": d, "expect": t["expect"], "files": t["files"],
-                     "main": t["main"], "args": ["-gen", genv, "-r", "-out", os.path.join(d, "out"), t["main"]]})
+        args = ["-gen", genv, "-r", "-out", os.path.join(d, "out"), t["main"]]
+        kind = t["kind"]
+        if t["expect"] == "reject" and rng.random() < 0.3:
+            # several files in one invocation, a valid one after the invalid one: the exit status still tells of the failure
+            with open(os.path.join(d, "zz_ok_after.frugal"), "w") as fh:
+                fh.write("struct ZzOkAfter { 1: i32 a }\n")
+            args.append("zz_ok_after.frugal")
+            kind += "+valid-file-after"
+        jobs.append({"i": i, "kind": kind, "gen": genv, "cwd": d, "expect": t["expect"], "files": t["files"],
+                     "main": t["main"], "args": args})
     with concurrent.futures.ThreadPoolExecutor(max_workers=int(os.environ.get("VERIF_JOBS", "4"))) as ex:
         results = list(ex.map(lambda j: run_frugal(j["args"], j["cwd"]), jobs))
     for j, r in zip(jobs, results):
